@@ -430,12 +430,94 @@ func runAll(c *run.Ctx) {
 		for i := 0; i < c.N(3000, 40000); i++ {
 			c.Case("aliasing", i, aliasing)
 		}
+		for i := 0; i < c.N(400, 4000); i++ {
+			c.Case("junction", i, junction)
+		}
 	}
 	// concurrent phase without the race detector as well (determinism under real parallelism)
 	c.Case("concurrent", 0, func(k *run.K) {
 		k.Nontrivial("concurrent")
 		concurrent(k, w, calls, []int{4, 16}, c.N(3000, 20000))
 	})
+}
+
+// junction: several lineal members that start at, end at and pass through one hub vertex in a random order
+// (the vertex's boundary/interior label is accumulated member by member under the mod-2 rule), against a
+// probe with an edge or a vertex at the hub. Every map-ordered binary operation is repeated and must give
+// the bit-identical answer every time; the labels feed Relate and the predicates.
+func junction(k *run.K) {
+	r := k.Rng
+	hx, hy := float64(r.Range(2, 5)), float64(r.Range(2, 5))
+	far := func() (float64, float64) {
+		for {
+			x, y := float64(r.Range(0, 8)), float64(r.Range(0, 8))
+			if x != hx || y != hy {
+				return x, y
+			}
+		}
+	}
+	var ls []geom.LineString
+	for i := r.Range(3, 6); i > 0; i-- {
+		x0, y0 := far()
+		x1, y1 := far()
+		switch r.Intn(3) {
+		case 0:
+			ls = append(ls, geom.NewLineStringXY(hx, hy, x0, y0))
+		case 1:
+			ls = append(ls, geom.NewLineStringXY(x0, y0, hx, hy))
+		default:
+			ls = append(ls, geom.NewLineStringXY(x0, y0, hx, hy, x1, y1))
+		}
+	}
+	var a geom.Geometry
+	if r.Bool() {
+		a = geom.NewMultiLineString(ls).AsGeometry()
+	} else {
+		var ms []geom.Geometry
+		for _, l := range ls {
+			ms = append(ms, l.AsGeometry())
+		}
+		a = geom.NewGeometryCollection(ms).AsGeometry()
+	}
+	px, py := far()
+	var b geom.Geometry
+	switch r.Intn(4) {
+	case 0:
+		b = geom.NewLineStringXY(hx, hy, px, py).AsGeometry()
+	case 1:
+		qx, qy := far()
+		b = geom.NewLineStringXY(px, py, hx, hy, qx, qy).AsGeometry()
+	case 2:
+		b = geom.NewPointXY(hx, hy).AsGeometry()
+	default:
+		b = geom.NewPolygon([]geom.LineString{geom.NewLineStringXY(hx, hy, hx+3, hy, hx+3, hy+3, hx, hy+3, hx, hy)}).AsGeometry()
+	}
+	k.In("a", a.AsText())
+	k.In("b", b.AsText())
+	k.Nontrivial(a.AsText() + b.AsText())
+	for _, o := range ops {
+		if o.arity != 2 || !heavy[o.name] {
+			continue
+		}
+		for _, pair := range [][2]geom.Geometry{{a, b}, {b, a}} {
+			x, y := pair[0], pair[1]
+			var first string
+			same, other := true, ""
+			if k.Lib("nopanic", func() {
+				first = o.fn(x, y)
+				for i := 0; i < 40 && same; i++ {
+					if v := o.fn(x, y); v != first {
+						same, other = false, v
+					}
+				}
+			}) {
+				continue
+			}
+			k.Check("repeat-identical", same, "%s(%s, %s) gives different results on repetition:\n first %s\n later %s", o.name, x.AsText(), y.AsText(), clip(first), clip(other))
+			k.Count("calls", 41)
+			k.Count("junction_calls", 41)
+		}
+	}
 }
 
 // aliasing: constructors must not write to the member slice they are given nor keep it (a later write by the
